@@ -118,6 +118,8 @@ class Interp:
         for e in elts:
             if isinstance(e, ast.Starred):
                 v = self.eval(e.value, fr)
+                if hasattr(v, "pyvc_star"):
+                    v = v.pyvc_star()
                 if not isinstance(v, (list, tuple)):
                     raise Unsupported("starred symbolic sequence")
                 out.extend(v)
